@@ -12,10 +12,13 @@ use serde_json::{json, Value};
 
 use crate::common::*;
 
-pub const FORMATS: [(&str, &str, &str); 13] = [
+pub const FORMATS: [(&str, &str, &str); 16] = [
     ("jpeg", "image/jpeg", "no_manifest.jpg"), ("png", "image/png", "libpng-test.png"), ("gif", "image/gif", "sample1.gif"), ("webp", "image/webp", "sample1.webp"),
     ("tiff", "image/tiff", "TUSCANY.TIF"), ("svg", "image/svg+xml", "sample1.svg"), ("mp4", "video/mp4", "video1_no_manifest.mp4"), ("wav", "audio/wav", "sample1.wav"),
     ("jxl", "image/jxl", "sample1.jxl"), ("mp3", "audio/mpeg", "sample1.mp3"), ("flac", "audio/flac", "sample1.flac"), ("avi", "video/avi", "test.avi"), ("pdf", "application/pdf", "basic.pdf"),
+    ("mov", "video/quicktime", "c.mov"), ("avif", "image/avif", "sample1.avif"),
+    // an AVI with three trailing RIFF/AVIX segments (OpenDML), built from test.avi
+    ("avix", "video/avi", "test.avi"),
 ];
 
 const KINDS: [&str; 4] = ["read", "write", "seek", "flush"];
@@ -328,7 +331,7 @@ pub fn run(args: &[String]) {
     let mut out = Out::new();
     std::panic::set_hook(Box::new(|_| {}));
     for (name, mime, fx) in FORMATS.iter().filter(|f| formats.iter().any(|x| x == f.0)) {
-        let plain = fixture(fx);
+        let plain = if *name == "avix" { crate::c07::decorate("avi", &fixture(fx)).unwrap_or_default() } else { fixture(fx) };
         let def = simple_manifest_json("c35", mime);
         let signed = match catch(AssertUnwindSafe(|| sign_bytes(ctx(&json!({"verify": {"remote_manifest_fetch": false}})), &def, mime, &plain, "ed25519"))) {
             Ok(Ok(b)) => b,
